@@ -784,6 +784,17 @@ func (r *Run) onRefreshSuccess(st Step, rt *Cred, cs *ClientSpec, res *Resp) {
 		r.violate("C04", "rotation-incomplete", "", "refresh of %s succeeded but did not return a new access/refresh pair", rt.Name())
 	}
 	r.checkTokenResponse("refresh_token", g, cs, res, at, nrt, id, nil)
+	// what a rotation does to access tokens the AUTHORIZATION endpoint delivered for the same grant (hybrid flow) is not pinned down
+	for _, c := range g.Creds {
+		if c.Kind == "at" && c.Endpoint == "authorize" && c.State == Live && !c.Unspec {
+			if e, _ := r.L.Expect(c, r.now()); e == Must {
+				if active, _ := r.introspectCred(c); !active {
+					r.L.Kill(c, Dead)
+					r.stat("resync-dead")
+				}
+			}
+		}
+	}
 	r.probeGrant(g, "right after rotation")
 }
 
